@@ -417,6 +417,36 @@ def ref_parse(buf):
     return {"id": ident, "flags": flags, "questions": tuple(qs), "answers": secs[0], "authorities": secs[1], "additionals": secs[2]}
 
 
+# leading fixed-width numeric octets of RDATA per name-bearing type (RFC 1035/2782/1183/2163/2915/2535); SOA: trailing 20
+_NUMERIC_PREFIX = {15: 2, 33: 6, 18: 2, 21: 2, 26: 2, 35: 4, 24: 18}
+
+
+def numeric_rdata_octet_ge_c0(buf):
+    """walks the records of the wire message (independent of mitmproxy) and reports whether a name-bearing record type has
+    an octet >= 0xC0 inside its fixed-width numeric RDATA fields"""
+    try:
+        if len(buf) < 12:
+            return False
+        _id, _fl, qd, an, ns, ar = struct.unpack_from("!HHHHHH", buf, 0)
+        off = 12
+        for _ in range(qd):
+            _n, off = _ref_name(buf, off)
+            off += 4
+        for _ in range(an + ns + ar):
+            _n, off = _ref_name(buf, off)
+            t, _c, _ttl, rdl = struct.unpack_from("!HHIH", buf, off)
+            off += 10
+            rd = bytes(buf[off:off + rdl])
+            off += rdl
+            if t in _NUMERIC_PREFIX and any(b >= 0xC0 for b in rd[:_NUMERIC_PREFIX[t]]):
+                return True
+            if t == 6 and len(rd) >= 22 and any(b >= 0xC0 for b in rd[-20:]):
+                return True
+    except (RefErr, struct.error):
+        return False
+    return False
+
+
 # ------------------------------------------------------------------ harness
 _TCTX = None
 
@@ -578,7 +608,12 @@ def check_case(case, ctx):
         try:
             got = ref_parse(out)
         except RefErr as e:
-            ctx.fail("dns-reencode-unparsable", "wire=%r out=%r err=%r" % (wire[:120], out[:120], e))
+            # decided from the ORIGINAL wire by this harness: a name-bearing record type whose fixed-width numeric RDATA fields
+            # (MX preference, SRV priority/weight/port, SOA serial..minimum, ...) contain an octet >= 0xC0.  mitmproxy's
+            # DNSMessage.unpack treats such octets as compression pointers (root cause recorded for C25), so the message the
+            # view renders and re-encodes is already damaged.  Any other unparsable re-encoding stays a plain violation.
+            sub = ":numeric-rdata-octet-ge-c0" if numeric_rdata_octet_ge_c0(wire) else ""
+            ctx.fail("dns-reencode-unparsable" + sub, "wire=%r out=%r err=%r" % (wire[:120], out[:120], e))
             return
         ctx.nt(("dns-rt", wire), "dns-roundtrip")
         for k in ("id", "flags", "questions", "answers", "authorities", "additionals"):
